@@ -87,6 +87,8 @@ class PandasMaterializer(FormulaMaterializer):
             if isinstance(values, FactorValues):
                 values = values.__wrapped__
             values = numpy.array(values)  # (lists have no shape of their own)
+            if values.dtype == numpy.float16:  # not supported by scipy.sparse
+                values = values.astype(numpy.float32)
             return spsparse.csc_matrix(values.reshape((values.shape[0], 1)))
         return values
 
